@@ -63,6 +63,9 @@ func c20TScenarios() []tScenario {
 					}
 					return "panic:" + name, r, ""
 				}
+				if strings.HasPrefix(name, "shutdown") && r == "RETURNED-BEFORE-TRANSPORT-CLOSED" {
+					return "shutdown-returned-while-node-still-up", name + " returned nil while the transport was still open", ""
+				}
 				if strings.HasPrefix(name, "shutdown") && r != "nil" {
 					return "shutdown-error", r, ""
 				}
@@ -87,7 +90,14 @@ func c20TScenarios() []tScenario {
 		}
 	}
 	shutdownT := func(n *node, name string) tThread {
-		return tThread{name, func() string { return errStr(n.M.Shutdown()) }}
+		return tThread{name, func() string {
+			err := n.M.Shutdown()
+			// "once Shutdown returns ... the transport is closed first": judged at the moment of return
+			if err == nil && !n.T.shut {
+				return "RETURNED-BEFORE-TRANSPORT-CLOSED"
+			}
+			return errStr(err)
+		}}
 	}
 	leaveT := func(n *node, name string) tThread {
 		return tThread{name, func() string {
@@ -133,6 +143,27 @@ func c20TScenarios() []tScenario {
 				}
 				return fin(res)
 			}
+		}, Horizon: 10 * time.Second},
+		{Name: "leave||gossip-burst (retransmit limit 1)", Build: func(b *bubble) ([]tThread, func(map[string]string) (string, string, string)) {
+			n := tNode(b, func(c *ml.Config) { c.RetransmitMult = 1 })
+			fin := lifecycleFinish(n, false)
+			return []tThread{leaveT(n, "leave1"), {"gossip", func() string {
+					for i := 0; i < 3; i++ {
+						n.M.VGossip()
+					}
+					time.Sleep(300 * time.Millisecond)
+					for i := 0; i < 3; i++ {
+						n.M.VGossip()
+					}
+					return "ok"
+				}}}, func(res map[string]string) (string, string, string) {
+					// once the departure was handed to the transport its completion must wake Leave up:
+					// needing the timeout here means Leave(0) would never return
+					if sentDeparture(n) && res["leave1"] != "nil" {
+						return "leave-missed-its-wakeup", fmt.Sprintf("the departure was sent but Leave returned %q", res["leave1"]), ""
+					}
+					return fin(res)
+				}
 		}, Horizon: 10 * time.Second},
 		{Name: "shutdown||update||gossip", Build: func(b *bubble) ([]tThread, func(map[string]string) (string, string, string)) {
 			n := tNode(b)
